@@ -22,6 +22,8 @@ def registry(tier):
     fifo("C01", "c01_atomic_2p1c_n2_k1", "quick", "AtomicMove", 2, 1, [P, P, C], "exactly_once", 2)
     fifo("C01", "c01_atomic_1p2c_n2_k0", "quick", "AtomicMove", 2, 0, [P, C, C], "exactly_once", 2)      # two dequeuers racing on an EMPTY ring
     fifo("C01", "c01_fullsync_2p1c_n2_k1", "quick", "FullSyncMove", 2, 1, [P, P, C], "exactly_once", 2)
+    fifo("C01", "c01_fullsync_1p1c_full_n2", "quick", "FullSyncMove", 2, 2, [P, C], "exactly_once", 2)      # ring exactly FULL: the consumer frees a slot the producer is waiting for
+    fifo("C01", "c01_atomic_1p1c_full_n2", "quick", "AtomicMove", 2, 2, [P, C], "exactly_once", 2)
     fifo("C01", "c01_zc_atomic_1p1c_n2_k1", "quick", "AtomicZeroCopy", 2, 1, [P, C + C], "exactly_once", 2)
     fifo("C01", "c01_zc_fullsync_1p1c_n2_k1", "quick", "FullSyncZeroCopy", 2, 1, [P, C + C], "exactly_once", 2)
     fifo("C01", "c01_atomic_2p1c_n2_k0", "thorough", "AtomicMove", 2, 0, [P, P, C + C], "exactly_once")
@@ -34,6 +36,8 @@ def registry(tier):
     # ---- C02: linearizable bounded FIFO (no drain thread: the recorded history itself is the subject)
     def lin(name, qtier, kind, N, k, threads, slack=2):
         add("C02", name, qtier, lambda ctx: Q.fifo_query(ctx, name, kind, N, k, threads, "linearizable", slack, TO, drain=False))
+    lin("c02_atomic_lin_c_pc_n2_k1", "quick", "AtomicMove", 2, 1, [C, P + C])            # a dequeue racing an enqueue+dequeue pair on one element
+    lin("c02_fullsync_lin_1p2c_n2_k1", "quick", "FullSyncMove", 2, 1, [P, C, C])         # two consumers + a producer on the full-sync ring
     lin("c02_atomic_lin_1p2c_n2_k2", "quick", "AtomicMove", 2, 2, [P, C, C])
     lin("c02_atomic_lin_2p1c_n2_k1", "quick", "AtomicMove", 2, 1, [P, P, C])
     lin("c02_atomic_lin_pp_cc_n2_k1", "quick", "AtomicMove", 2, 1, [P + P, C + C])
